@@ -127,7 +127,7 @@ def expected : List (UncheckedOp × String) := [
   (⟨"analysis/httpapi/parse.go", "parseEndpointFunc", "assert", "xObj.Type().(*types.Named)", ""⟩, "C13: receiver of a method value"),
   (⟨"analysis/sql/sql.go", "isTableID", "slice", "name[2:]", "len(name) > 2 && strings.HasPrefix(strings.ToLower(name), \"id\")"⟩, "guarded"),
   (⟨"analysis/sql/types.go", "Array.Name", "assert", "ar.A.Elem.(*an.Basic)", ""⟩, "sql.Array is built by newType only for Basic or integer Enum elements; the Enum case is tested first"),
-  (⟨"analysis/sql/types.go", "newType", "assert", "time.(*an.Time)", ""⟩, "NewTime on time.Time itself (sql.NullTime field) returns *Time"),
+  (⟨"analysis/sql/types.go", "newType", "assert", "time.(*an.Time)", ""⟩, "NewTime returns *Time, or the *Named wrapping it for a named time type, which the statement just before unwraps"),
   (⟨"cmd/gomacro.go", "main", "slice", "fileArgs[1:]", ""⟩, "len(fileArgs) >= 1 checked above"),
   (⟨"generator/dart/typedecls.go", "lowerFirst", "slice", "s[0:1]", ""⟩, "early return on the empty string"),
   (⟨"generator/dart/typedecls.go", "lowerFirst", "slice", "s[1:]", ""⟩, "early return on the empty string"),
@@ -146,7 +146,7 @@ def expected : List (UncheckedOp × String) := [
   (⟨"generator/go/sqlcrud/sql.go", "context.compositeConverters", "assert", "composite.Type().(*an.Struct)", ""⟩, "sql.Composite wraps a *Struct"),
   (⟨"generator/sql/json.go", "codeForUnion", "assert", "member.Type().(*types.Named)", ""⟩, "union members are named types"),
   (⟨"generator/sql/json.go", "idFromNamed", "slice", "pkg[:4]", "len(pkg) > 4"⟩, "guarded"),
-  (⟨"generator/sql/json.go", "typeID", "assert", "ty.Type().(*types.Named)", ""⟩, "Struct/Enum/Union node"),
+  (⟨"generator/sql/json.go", "typeIDRec", "assert", "ty.Type().(*types.Named)", ""⟩, "Struct/Enum/Union node"),
   (⟨"generator/sql/tables.go", "compositeDecl", "assert", "cp.Type().(*an.Struct)", ""⟩, "sql.Composite wraps a *Struct"),
   (⟨"generator/sql/tables.go", "generateTable", "assert", "composite.Type().(*an.Struct)", ""⟩, "sql.Composite wraps a *Struct"),
   (⟨"generator/typescript/axios_api.go", "asObjectKey", "assert", "t.Underlying.(*an.Basic)", ""⟩, "C14: typed query parameters are basic or named basic")
